@@ -112,9 +112,13 @@ def linear_shard(kind, tier):
                     if tuple(back.shape) != tuple(xr.shape) or not torch.equal(back, xr):
                         tally.violation(f"like_input-roundtrip:{kind}", cfg, f"like_input(like_synaptic(x)) != x")
                     cur = c.like_synaptic(xr)
-                    pre = c.presyn_receptive(cur)
                     outv = torch.arange(B * O, dtype=torch.float32).reshape(B, *outshape) + 1
-                    post = c.postsyn_receptive(outv)
+                    try:
+                        pre = c.presyn_receptive(cur)
+                        post = c.postsyn_receptive(outv)
+                    except Exception as ex:
+                        tally.violation(f"exception:{kind}:receptive", cfg, f"receptive view raised {type(ex).__name__}: {ex}", None, repr(ex))
+                        continue
                     try:
                         pp = (pre * post)
                         red = pp.sum(-1) if kind != "direct" else pp.sum(-1)
@@ -234,8 +238,12 @@ def conv_shard(H, Wd, tier):
                             tally.violation("conv:like_input-roundtrip", cfg, "like_input(like_synaptic(x)) != x on covered positions")
                         # receptive views
                         syncur = c.like_synaptic(cur)
-                        pre = c.presyn_receptive(syncur)
-                        post = c.postsyn_receptive(out)
+                        try:
+                            pre = c.presyn_receptive(syncur)
+                            post = c.postsyn_receptive(out)
+                        except Exception as ex:
+                            tally.violation("exception:conv:presyn_receptive", cfg, f"receptive view raised {type(ex).__name__}: {ex}", None, repr(ex))
+                            continue
                         try:
                             red = (pre * post).sum(-1)
                             okk = tuple(red.shape[1:]) == tuple(c.weight.shape)
